@@ -132,14 +132,15 @@ REGISTRY["C05"] = {
     "level_note": LOCKSTEP_TRUST + " The asynchronous catch-up of the join's tracker is exercised only through GOMAXPROCS variation and natural scheduling.",
     "technique": "bounded-exhaustive table + rapid property test, lock-step differential against a token-game model with an allowed firing window for the join",
     "rule": ("task -> inclusive fork -> branches -> inclusive join -> task (block possibly twice). Distinct = descriptor incl. answer order. Non-trivial = >=2 branches "
-             "activated with >=2 requests pending at once, or an activated branch that ends before the join, or an unactivated branch present. TestC05Nested keeps the "
-             "pattern of known finding C05-F1 (inclusive gateways nested with other forks) in the domain and attributes a failure to it only on a matching symptom. "
+             "activated with >=2 requests pending at once, or an activated branch that ends before the join, or an unactivated branch present. TestC05Nested: inclusive "
+             "gateways nested with other forks; a shadow of the engine's bookkeeping (model/shadow.go) tells the runs in which known finding C05-F1 can apply (class "
+             "inside-C05-F1-pattern: a failure with a matching symptom is attributed to the finding) from the others (class checked-strictly: any failure is a violation). "
              "TestC05Funnel: non-trivial = the activations of the gateway are of at least two different kinds."),
-    "assumptions": ["inclusive gateways are not nested with other forks in the main campaign (finding C05-F1, constructed around)"],
+    "assumptions": ["inclusive gateways are not nested with other forks in the main campaign (finding C05-F1, constructed around); nested shapes are judged in TestC05Nested, strictly wherever the finding cannot apply"],
     "tests": [
         {"name": "TestC05Table", "mode": "plain", "shards": {"quick": 1, "thorough": 1}},
         {"name": "TestC05Random", "checks": {"quick": 200, "thorough": 5000}, "shards": {"quick": 8, "thorough": 16}, "gomaxprocs": [4, 1, 2, 16]},
-        {"name": "TestC05Nested", "env": {"VERIF_UNRESTRICTED": "1"}, "checks": {"quick": 60, "thorough": 1000}, "shards": {"quick": 4, "thorough": 8}},
+        {"name": "TestC05Nested", "env": {"VERIF_UNRESTRICTED": "1"}, "checks": {"quick": 200, "thorough": 2000}, "shards": {"quick": 8, "thorough": 8}},
         {"name": "TestC05Funnel", "checks": {"quick": 100, "thorough": 2500}, "shards": {"quick": 4, "thorough": 16}, "gomaxprocs": [4, 1, 2, 16]},
     ],
 }
